@@ -182,6 +182,8 @@ func OwnLayers(n *gen.Node) []Layer {
 		out = []Layer{harnessL("gen.NCLeaf")}
 	case "isleaf":
 		out = []Layer{harnessL("*gen.IsLeaf")}
+	case "asleaf":
+		out = []Layer{harnessL("*gen.AsLeaf")}
 	case "lowleaf", "lowwrap":
 		out = []Layer{harnessL("*gen.LOW")}
 	case "wrap", "wrapf":
@@ -368,7 +370,7 @@ func Text(n *gen.Node) string {
 	case "newfwe":
 		return S[0] + " " + k(0) + " " + S[1] + " " + h(0)
 	case "goerr", "new", "pkgnew", "nofmtleaf", "fmtleaf", "unimpl", "domnew", "gstatus",
-		"oldfmtleaf", "fmtrleaf", "ncleaf", "isleaf", "lowleaf", "elidewrap", "handledmsg":
+		"oldfmtleaf", "fmtrleaf", "ncleaf", "isleaf", "lowleaf", "asleaf", "elidewrap", "handledmsg":
 		return S[0]
 	case "newf":
 		return S[1] + " " + S[0] + " " + S[2]
